@@ -19,6 +19,7 @@ type Cfg struct {
 	LeadingOr  bool // the first effective call may be Or
 	EmptyIn    bool // IN lists may be empty (rendered IN (NULL) by gorm)
 	NoPK       bool // no primary-key forms (conditions must not mention id)
+	NoNeutral  bool // no Session{} / WithContext between calls, no Clauses(expr)
 	SkipClass  func(class string) bool
 	OnExcluded func(class string)
 }
@@ -117,7 +118,7 @@ func genVal(x g, col string) Val {
 
 func genAtom(x g, cfg Cfg) *Node {
 	col := DataCols[x.n(len(DataCols))]
-	ops := []Op{OpEq, OpEq, OpNe, OpNe, OpLt, OpGt, OpIn, OpIn}
+	ops := []Op{OpEq, OpEq, OpNe, OpNe, OpLt, OpGt, OpGe, OpLe, OpIn, OpIn}
 	if IsText(col) {
 		ops = append(ops, OpLike, OpLike)
 	}
@@ -144,6 +145,9 @@ func genList(x g, col string, cfg Cfg) []Val {
 		lo = 0
 	}
 	k := lo + x.n(4-lo)
+	if x.pct(6) {
+		k = 4 + x.n(7) // long list: more bound values than the statement's initial capacity
+	}
 	vs := make([]Val, k)
 	for i := range vs {
 		vs[i] = genVal(x, col)
@@ -197,6 +201,9 @@ func (cfg Cfg) key(col string) string {
 
 func genMapUnit(x g, cfg Cfg) *Unit {
 	k := x.n(4) // 0..3 entries
+	if x.pct(8) {
+		k = 4 + x.n(2) // more conditions than the builder's initial capacity
+	}
 	cols := append([]string(nil), DataCols...)
 	m := map[string]interface{}{}
 	u := &Unit{Form: FMap, Feats: featsOf()}
@@ -239,7 +246,34 @@ func genMapUnit(x g, cfg Cfg) *Unit {
 	// members in gorm's order (sorted keys) - irrelevant for the meaning
 	u.Tree = And(u.Members...)
 	u.Query = m
-	u.Desc = goString(m)
+	// the other map types BuildCondition accepts
+	allStr, allScalar := true, true
+	for _, v := range m {
+		switch v.(type) {
+		case string:
+		case int:
+			allStr = false
+		default:
+			allStr, allScalar = false, false
+		}
+	}
+	switch {
+	case allStr && x.pct(40):
+		ms := map[string]string{}
+		for k, v := range m {
+			ms[k] = v.(string)
+		}
+		u.Query = ms
+		u.Feats["map:string-string"] = true
+	case allScalar && x.pct(20):
+		mi := map[interface{}]interface{}{}
+		for k, v := range m {
+			mi[k] = v
+		}
+		u.Query = mi
+		u.Feats["map:any-any"] = true
+	}
+	u.Desc = goString(u.Query)
 	if k == 0 {
 		u.Feats["map:empty"] = true
 	}
@@ -295,6 +329,55 @@ func genStructUnit(x g, cfg Cfg) *Unit {
 			u.Feats["struct:pointer-field"] = true
 		}
 	}
+	if len(u.Fields) > 0 && x.pct(20) {
+		// Where(&T{...}, "col", "Field"): only the named fields form conditions,
+		// zero values included (a nil pointer field means IS NULL)
+		names := map[string]string{"id": "ID", "ca": "Ca", "cb": "Cb", "cs": "Cs", "cn": "Cn", "ct": "Ct", "cor": "Cor", "band": "Band"}
+		all := make([]string, 0, len(u.Fields))
+		for c := range u.Fields {
+			all = append(all, c)
+		}
+		sort.Strings(all)
+		if x.pct(30) { // also a field that is not set at all
+			for _, c := range []string{"ca", "cs", "cn"} {
+				if _, ok := u.Fields[c]; !ok {
+					all = append(all, c)
+					break
+				}
+			}
+		}
+		u.Members = nil
+		nsel := 1 + x.n(len(all))
+		for _, c := range all[:nsel] {
+			if x.pct(50) {
+				u.Args = append(u.Args, c)
+			} else {
+				u.Args = append(u.Args, names[c])
+			}
+			var node *Node
+			switch v := u.Fields[c].(type) {
+			case nil:
+				switch c {
+				case "cn":
+					node = IsNull(c)
+				case "cs":
+					node = Atom(c, OpEq, StrV(""))
+				default:
+					node = Atom(c, OpEq, IntV(0))
+				}
+			case int:
+				node = Atom(c, OpEq, IntV(v))
+			case string:
+				node = Atom(c, OpEq, StrV(v))
+			case *int:
+				node = Atom(c, OpEq, IntV(*v))
+			case *string:
+				node = Atom(c, OpEq, StrV(*v))
+			}
+			u.Members = append(u.Members, node)
+		}
+		u.Feats["struct:selected-fields"] = true
+	}
 	keys := make([]string, 0, len(u.Fields))
 	for c := range u.Fields {
 		keys = append(keys, c)
@@ -309,7 +392,7 @@ func genStructUnit(x g, cfg Cfg) *Unit {
 		amp = "&"
 		u.Feats["struct:pointer"] = true
 	}
-	u.Desc = amp + "T{" + strings.Join(parts, ", ") + "}"
+	u.Desc = amp + "T{" + strings.Join(parts, ", ") + "}" + argString(u.Args)
 	if len(u.Members) == 0 {
 		u.Feats["struct:zero"] = true
 	}
@@ -462,7 +545,16 @@ func genCalls(x g, cfg Cfg, n, level int, leadingOr bool) []Call {
 		if !u.Empty() {
 			seenEffective = true
 		}
-		calls = append(calls, Call{verb, u})
+		call := Call{Verb: verb, U: u}
+		if level == 0 && !cfg.NoNeutral {
+			if x.pct(10) {
+				call.Pre = []string{"Session{}", "WithContext"}[x.n(2)]
+			}
+			if verb == VWhere && u.Form == FClause && x.pct(20) {
+				call.ViaClauses = true
+			}
+		}
+		calls = append(calls, call)
 	}
 	return calls
 }
@@ -474,7 +566,12 @@ func GenInline(rt *rapid.T, cfg Cfg) *Unit {
 	for {
 		if !cfg.NoPK && x.pct(12) {
 			id := 1 + x.n(cfg.MaxID+1)
-			return &Unit{Form: FPKScalar, Tree: Atom("id", OpEq, IntV(id)), Query: id, Desc: fmt.Sprint(id), Feats: featsOf()}
+			u := &Unit{Form: FPKScalar, Tree: Atom("id", OpEq, IntV(id)), Query: id, Desc: fmt.Sprint(id), Feats: featsOf()}
+			if x.pct(30) { // a numeric string is a primary key too
+				u.Query, u.Desc = fmt.Sprint(id), fmt.Sprintf("%q", fmt.Sprint(id))
+				u.Feats["pk:numeric-string"] = true
+			}
+			return u
 		}
 		u := genUnit(x, cfg, 0)
 		if c := findingClass(VWhere, u); c != "" && cfg.skip(c) {
